@@ -1,6 +1,8 @@
 package vlab
 
 import (
+	"hash/fnv"
+	"sort"
 	"encoding/json"
 	"fmt"
 	"os"
@@ -86,7 +88,34 @@ func RunUnit(u *Unit, shard, nshards int, deadline time.Time, boundOverride int)
 	}
 	e := &Explorer{Name: u.Name, Bound: bound, Prune: u.Prune && !u.Sc.UsesFS && os.Getenv("VERIF_NOPRUNE") == "", Shard: shard, NShards: nshards,
 		Deadline: deadline, Run: u.Sc.Runner(dir), Check: u.Check, Goal: u.Goal, EnvChoices: u.Env, NoConfirm: u.NoConfirm, AllVisible: u.AllVisible}
+	// W cache: the shared-object sets discovered by earlier runs of this unit (stable ids). Starting
+	// with them only makes more operations visible from the first execution on (a superset of
+	// scheduling points, so nothing explorable is lost) and saves the discovery restarts.
+	wfile := ""
+	if d := os.Getenv("VERIF_WCACHE"); d != "" && !u.AllVisible {
+		h := fnv.New64a()
+		h.Write([]byte(u.Name))
+		wfile = filepath.Join(d, fmt.Sprintf("%016x.json", h.Sum64()))
+		if b, err := os.ReadFile(wfile); err == nil {
+			var c struct {
+				Unit string   `json:"unit"`
+				W    []uint64 `json:"w"`
+			}
+			if json.Unmarshal(b, &c) == nil && c.Unit == u.Name {
+				e.SetW(c.W)
+			}
+		}
+	}
 	e.Explore()
+	if wfile != "" && os.Getenv("VERIF_WCACHE_RO") == "" && e.HarnessErr == "" && len(e.Violations) == 0 {
+		if w := e.W(); len(w) > 0 {
+			sort.Slice(w, func(i, j int) bool { return w[i] < w[j] })
+			b, _ := json.Marshal(map[string]any{"unit": u.Name, "w": w})
+			if old, err := os.ReadFile(wfile); err != nil || string(old) != string(b) {
+				os.WriteFile(wfile, b, 0o644)
+			}
+		}
+	}
 	if e.HarnessErr == "" && e.Stats.Execs > 0 && e.Stats.Outcomes == 0 && (nshards <= 1 || shard == 0) {
 		// every execution was abandoned before it could be judged (e.g. pruned against its own
 		// earlier state): the silence of such a unit would mean nothing
